@@ -60,14 +60,21 @@ def close_rot(rot, M):
     return L.And(*[L.close(R[i][j], build.const(M[i][j]), 1e-7) for i in range(3) for j in range(3)])
 
 
-def hm(name, qname, sign, as_matrix, src, dst):
+def hm(name, qname, sign, as_matrix, src, dst, buffer=False):
     t = vec(name)
-    T = HomogeneousMatrix(tuple(t), rot_arg(qname, sign, as_matrix), src, dst)
+    if buffer:
+        # the translation is handed over in a caller-owned array that the caller reuses afterwards
+        from ..symnp import symarray
+        buf = symarray(list(t)) if symx.is_symbolic() else np.array([float(v) for v in t])
+        T = HomogeneousMatrix(buf, rot_arg(qname, sign, as_matrix), src, dst)
+        buf += 1.0
+    else:
+        T = HomogeneousMatrix(tuple(t), rot_arg(qname, sign, as_matrix), src, dst)
     return T, t, qmat(QUATS[qname])
 
 
-def inverse_roundtrip(qT, qR, sign, as_matrix):
-    T, t, MT = hm("t", qT, sign, as_matrix, FrameID.BASE_LINK, FrameID.MAP)
+def inverse_roundtrip(qT, qR, sign, as_matrix, buffer=False):
+    T, t, MT = hm("t", qT, sign, as_matrix, FrameID.BASE_LINK, FrameID.MAP, buffer=buffer)
     p = vec("p")
     MR = qmat(QUATS[qR])
     R = build.mkrot(tuple(Fr(v) for v in QUATS[qR]))
@@ -246,6 +253,7 @@ def obligations(pid, tier):
         inv_cases = [dict(qT=a, qR=b, sign=s, as_matrix=m) for a in qs for b in qs for s in (1, -1)
                      for m in (False, True)]
         comp_cases = [dict(qA=a, qB=b, sign=s) for a in qs for b in qs for s in (1, -1)]
+    inv_cases += [dict(qT=a, qR="mixed_a", sign=1, as_matrix=False, buffer=True) for a in ("yaw_3_4_5", "mixed_b")]
     reg_cases = [dict(qT=q, n_registered=n, spelling=sp) for q in (("mixed_a", "yaw_3_4_5") if quick else qs)
                  for n in (0, 1, 2) for sp in ("enum", "lower", "upper")]
     hist_ops = [("set",), ("del",), ("copy", "set"), ("set_str_key", "del", "readd"), ("del", "readd", "set"),
